@@ -39,11 +39,13 @@ def stepLine (_ : Unit) (line : String) : Unit × String :=
       | none, _, _ => "unknown-definer"
       | _, _, _ => "bad-op"
     | [fn, a, b] =>
-      if fn = "expandguard" || fn = "denseexpand" || fn = "torchexpand" then
+      if fn = "expandguard" || fn = "denseexpand" || fn = "torchexpand" || fn = "expandfixed" then
         match parseNats? a, parseInts? b with
         | some a, some s =>
           if fn = "expandguard" then
             (match Impl.expandGuard a s with | .ok l => "ok " ++ showList toString l | .error e => "err " ++ showErr e)
+          else if fn = "expandfixed" then
+            (match Impl.expandGuardFixed a s with | .ok l => "ok " ++ showList toString l | .error e => "err " ++ showErr e)
           else if fn = "denseexpand" then showRes (Impl.denseExpand a s)
           else showOpt (Spec.torchExpand? a s)
         | _, _ => "bad-op"
@@ -62,6 +64,7 @@ def stepLine (_ : Unit) (line : String) : Unit × String :=
         else if fn = "bc" then showOpt (Spec.broadcastShapes? a b)
         else if fn = "solvespec" then showOpt (Spec.solveShape? a b)
         else if fn = "solve" then showUnit (Impl.solveGuard a b)
+        else if fn = "solvefixed" then showRes (Impl.solveGuardFixed a b)
         else if fn = "invquad" then showRes (Impl.invQuadGuard a b)
         else if fn = "iql" then showUnit (Impl.iqlGuard a b)
         else if fn = "mul" then showRes (Impl.mulGuard a b)
